@@ -25,7 +25,8 @@ RULE = ("gain vectors of length 1..16 drawn from classes {log-uniform over 12 "
         "switch-off boundary; the permuted call is under the contract too.  "
         "Class 'wide': one link of order 1 next to links 8-20 decades weaker at "
         "a noise level that still makes them worth filling. "
-        "The in-situ cases sweep power and noise on ONE BlockDiagonalizer object (1-3 rounds). ")
+        "The in-situ cases sweep power and noise on ONE BlockDiagonalizer object (1-3 rounds). "
+        "One direct case in 16 has 64-1000 channels; the in-situ cases also use EnhancedBD / WhiteningBD objects (inherited entry point) and the module-level function in an SNR sweep. ")
 ASSUMPTIONS = ["tolerances are backward-error bounds 64 n eps (level + inverse "
                "gain of the active channels)"]
 EPS = np.finfo(float).eps
@@ -157,6 +158,9 @@ GCLASSES = ["loguniform", "equal", "dominant", "near-equal", "sorted-desc", "sva
 
 def case_direct(ctx, rng, idx):
     n = int(rng.integers(1, 17))
+    if idx % 16 == 5:
+        # many parallel channels (all subcarriers x streams of a wide-band link)
+        n = int(rng.choice([64, 128, 129, 200, 512, 1000]))
     gclass = GCLASSES[idx % len(GCLASSES)]
     g = gen_gains(rng, n, gclass)
     N0 = 10.0 ** rng.uniform(-2, 2)
@@ -248,11 +252,26 @@ def case_insitu(ctx, rng, idx):
     nant = int(rng.integers(1, 4))
     Pu = 10.0 ** rng.uniform(-2, 2)
     noise = 10.0 ** rng.uniform(-4, 0)
-    bd = BD.BlockDiagonalizer(K, Pu, noise)
+    # the water-filling entry points: the class, the classes for external
+    # interference (which inherit it; their pe is no part of the problem), and
+    # the module-level function (called with whatever noise the loop is at)
+    entry = ["class", "class", "enhanced", "whitening", "function"][idx % 5]
+    pe = float(10.0 ** rng.uniform(-1, 1))
+    if entry == "enhanced":
+        bd = BD.EnhancedBD(K, Pu, noise, pe)
+    elif entry == "whitening":
+        bd = BD.WhiteningBD(K, Pu, noise, pe)
+    else:
+        bd = BD.BlockDiagonalizer(K, Pu, noise)
     monitors.ACTIVE[0] = ctx
     try:
         for rnd in range(int(rng.integers(1, 4))):
-            if rnd:
+            if rnd and entry == "function":
+                if rng.random() < 0.7:
+                    noise = 10.0 ** rng.uniform(-4, 0)      # an SNR sweep: same K and power
+                else:
+                    Pu = 10.0 ** rng.uniform(-2, 2)
+            elif rnd:
                 # the object is re-configured through its public attributes
                 what = int(rng.integers(0, 3))
                 if what in (0, 2):
@@ -265,8 +284,12 @@ def case_insitu(ctx, rng, idx):
                  1j * rng.standard_normal((K * nant, K * nant))) / np.sqrt(2)
             STATE["rng"], STATE["tag"] = rng, "block_diagonalize"
             STATE["calls"] = []
-            d = {"K": K, "nant": nant, "Pu": Pu, "noise": noise, "round": rnd}
-            okc, _ = ctx.call("matches-reference", bd.block_diagonalize, H, detail=d)
+            d = {"K": K, "nant": nant, "Pu": Pu, "noise": noise, "round": rnd, "entry": entry}
+            if entry == "function":
+                okc, _ = ctx.call("matches-reference", BD.block_diagonalize, H, K, Pu, noise,
+                                  detail=d)
+            else:
+                okc, _ = ctx.call("matches-reference", bd.block_diagonalize, H, detail=d)
             calls = STATE["calls"]
             if not okc:
                 break
@@ -291,7 +314,8 @@ def case_insitu(ctx, rng, idx):
                        bool(np.all(np.abs(got - want) <= 1e-9 * scale)) and
                        abs(c["N0"] - noise) <= 1e-12 * noise and abs(c["Es"] - 1.0) == 0.0 and
                        abs(c["Pt"] - K * Pu) <= 1e-12 * K * Pu,
-                       cls="insitu:problem-handed-to-doWF" + (":after-reconfiguration" if rnd else ""),
+                       cls="insitu:problem-handed-to-doWF" + (":after-reconfiguration" if rnd else "")
+                       + (":" + entry if entry != "class" else ""),
                        detail={**d, "gains_passed": got, "gains_of_the_channel": want,
                                "noise_passed": c["N0"], "budget_passed": c["Pt"]})
             ctx.sig("insitu", K, nant, int(np.floor(np.log10(Pu))), rnd)
